@@ -290,3 +290,20 @@ SPECS["C02"] = dict(
         dict(id="sessions", run="^TestC02Sessions$", quick=dict(shards=6, checks=60, timeout=600, shrinktime=30), thorough=dict(shards=4, checks=2500, timeout=3400, shrinktime=300)),
     ]),
 )
+
+LIFE_OVERLAY = ["verifx/lifex"] + FX_OVERLAY
+
+SPECS["C04"] = dict(
+    level="exploration",
+    technique="property-based testing of real engine sessions (rapid): generated connection histories with racing close causes, a second wave of connections re-using descriptor numbers and stale requests, judged by a life-cycle automaton over the recorded callback log",
+    rule="a case is one engine configuration with 1..5 connection histories (OnOpen behaviour none/reply/Close action/Close()/EventLoop.Close; steps over peer data, peer close/reset/half-close, handler directives executed inside OnTraffic - Close action, Close(), CloseWithCallback, EventLoop.Close, write to a reset peer -, "
+         "Wake/Close/CloseWithCallback/AsyncWrite from other goroutines, bursts of 2..3 causes fired concurrently; OnClose behaviour none/write/Close action), then 0..4 fresh connections that get the freed descriptor numbers, then stale Wake/Close/CloseWithCallback/AsyncWrite(v) on the closed ones; "
+         "oracle: Open (Traffic)* Close per connection, Close iff Open, identity/loop/goroutine of every callback, OnClose error nil only with a local cause and non-nil only with a peer cause issued, stale async writes complete with net.ErrClosed, second-wave connections see no traffic, bytes or close they did not cause, "
+         "CountConnections = opened - closed at quiescent points; non-trivial = a connection with a close requested from inside a callback or with concurrently fired causes; distinct = distinct (configuration, connection history)",
+    assumptions=ENGINE_ASSUME,
+    overlay=["verifx/c04"] + LIFE_OVERLAY,
+    max_parallel=12,
+    jobs=engine_jobs("c04", "./verifx/c04", [
+        dict(id="lifecycle", run="^TestC04Lifecycle$", quick=dict(shards=6, checks=150, timeout=600, shrinktime=30), thorough=dict(shards=4, checks=6000, timeout=3400, shrinktime=300)),
+    ]),
+)
